@@ -83,7 +83,9 @@ def run_case(case):
     nontrivial = False
     outcome = None
     try:
-        with sdb.batch_commit(do_deletes=case["dd"]):
+        # "deletes are applied only if requested": not requesting them is also done by leaving the argument out
+        kw = {} if (not case["dd"] and len(case["script"]) % 2 == 0) else {"do_deletes": case["dd"]}
+        with sdb.batch_commit(**kw):
             for i, op in enumerate(case["script"]):
                 if raise_at is not None and i == raise_at:
                     raise (BoomBase() if len(case["script"]) % 2 else Boom())
